@@ -107,9 +107,13 @@ class ResourceTransformer:
         classes: A list of class instances
         processed: A list of processed uris
         preloaded: A uri/content map used as cache
+        parsed: The parsed schema and definitions instances. They are kept
+            alive until the transformer is done, because the classes refer to
+            the xs:sequence/choice/all/group containers by their `id()`,
+            which is only unique among objects that are alive.
     """
 
-    __slots__ = ("classes", "config", "preloaded", "processed")
+    __slots__ = ("classes", "config", "parsed", "preloaded", "processed")
 
     def __init__(self, config: GeneratorConfig):
         """Initialize the transformer."""
@@ -117,6 +121,7 @@ class ResourceTransformer:
         self.classes: list[Class] = []
         self.processed: list[str] = []
         self.preloaded: dict = {}
+        self.parsed: list[Schema | Definitions] = []
 
     def process(self, uris: list[str], cache: bool = False) -> None:
         """Process a list of resolved URI strings.
@@ -179,6 +184,9 @@ class ResourceTransformer:
         definitions = None
         for uri in uris:
             services = self.parse_definitions(uri, namespace=None)
+            if services:
+                self.parsed.append(services)
+
             if definitions is None:
                 definitions = services
             elif services:
@@ -225,6 +233,7 @@ class ResourceTransformer:
         """
         schema = self.parse_schema(uri, namespace)
         if schema:
+            self.parsed.append(schema)
             self.convert_schema(schema)
 
     def process_xml_documents(self, uris: list[str]) -> None:
